@@ -1630,10 +1630,10 @@ class RlWriter:
                 raise
 
     def _fix_broken_images(self, _, img_path):
+        img_path = str(img_path, 'utf-8')
         if img_path in self.fixed_images:
             return self.fixed_images[img_path]
         self.fixed_images[img_path] = -1
-        img_path = str(img_path, 'utf-8')
 
         try:
             img = PilImage.open(img_path)
